@@ -208,6 +208,7 @@ structure Db where
   lru : List Nat := []                 -- `openBlocksLRU` (most recent first; may hold closed numbers)
   dead : List (String × Bool) := []    -- ended transactions whose handle is still used: id, writable
   -- admissibility mode (fault / crash classes): outcomes are checked against the Spec's admissible set
+  flushAlways : Bool := false          -- flush interval 0: every commit takes the flush path
   admMode : Bool := false
   hist : List KV := []                 -- flat metadata after each commit, oldest first
   floor : Nat := 0                     -- commits known to be durable (clean reopen)
@@ -433,7 +434,7 @@ def commit (id : String) : M String := do
   let d ← get
   t := t.put (bucketizedKey metadataBucketID writeLocKeyName) (serializeWriteRow crc32c d.wcFile d.wcOff)
   -- commitTx
-  if needsFlush t.snap d.maxCache then
+  if d.flushAlways || needsFlush t.snap d.maxCache then
     if !(← flush) then return "err:DriverSpecific"
     modify fun d => { d with ldb := applyToLdb d.ldb t.pKeys t.pRem }
   else
@@ -930,6 +931,9 @@ def step (op : String) : M (Option String) := do
     match nat? target with
     | some target => withTx id fun t => do return some (← pruneBlocks id t target)
     | none => return none
+  | ["fi", v] =>
+    modify fun d => { d with flushAlways := v == "0" }
+    return some "ok"
   | ["fl"] => return some (if ← flush then "ok" else "err:DriverSpecific")
   | ["ro", mf, mc, net] =>
     match nat? mf, nat? mc, nat? net with
